@@ -315,12 +315,21 @@ class CallMixin:
     def should_inline(self, fi: FuncInfo, fr) -> bool:
         if fr.depth + 1 > self.opts.max_depth:
             return False
-        inl = self.opts.inline
-        if inl is None:
+        if self.opts.opaque and fi.qual in self.opts.opaque:
             return False
-        if callable(inl):
-            return bool(inl(fi))
-        return fi.qual in inl
+        if fi.qual in self.opts.call_models:
+            return False
+        inl = self.opts.inline
+        if inl is not None:
+            if callable(inl):
+                if inl(fi):
+                    return True
+            elif fi.qual in inl:
+                return True
+        if self.opts.inline_private and fi.name.startswith("_") and not fi.name.startswith("__init") and not (
+                fi.name.startswith("__") and fi.name.endswith("__")) and fi.module.name == self.opts.root_module and not fi.is_generator:
+            return True
+        return False
 
     def call_function(self, fi: FuncInfo, args, kwargs, node, fr, closure=None, self_value=None):
         from .interp import Cell, Frame, _Return
@@ -552,6 +561,8 @@ class CallMixin:
             return App("type", (a0,), fname="type")
         if name == "print":
             return None
+        if name == "memoryview" and args and isinstance(a0, (bytes, bytearray)):
+            return bytes(a0)
         if name == "super":
             return Opaque("super()")
         return sym()
@@ -719,6 +730,18 @@ class CallMixin:
                 return self.raise_implicit("builtins.IndexError", node, fr)
             except (TypeError, AttributeError):
                 return App(name, [recv] + list(args), kwargs, uid=self.next_uid())
+        if isinstance(recv, int) and not isinstance(recv, bool) and m == "to_bytes" and all(isinstance(a, (int, str)) for a in args):
+            try:
+                return recv.to_bytes(*args, **kwargs)
+            except OverflowError:
+                return self.raise_implicit("builtins.OverflowError", node, fr)
+            except Exception:
+                pass
+        if isinstance(recv, BuiltinRef) and recv.name == "int" and m == "from_bytes" and args and isinstance(args[0], (bytes, bytearray)):
+            try:
+                return int.from_bytes(*args, **kwargs)
+            except Exception:
+                pass
         if isinstance(recv, (Obj, Atom)):
             return App(name, args, kwargs, uid=self.next_uid(), fname=name)
         if isinstance(recv, Term):
